@@ -222,7 +222,13 @@ func worldC08(w *World) {
 	})
 	cb := startCountingBackend(w)
 	cb.Delay = func(tok string) time.Duration { return workDelay[tok] }
-	startAgent(w)
+	// the agent may be configured without a time limit for its calls to the proxy
+	if t.Rare(1, 5, "no-proxy-timeout") {
+		w.Probe("agent_without_proxy_timeout")
+		startAgent(w, "-proxy-timeout=0")
+	} else {
+		startAgent(w)
+	}
 	w.K.Spawn("controller", func() {
 		for {
 			time.Sleep(5 * time.Second)
